@@ -145,6 +145,30 @@ static void runOne(Ctx& c, Rng& rng, Suite& s)
 			if (R == 8 && W == 64 && n == 5 && dist == 0) c.stats.sample("radix " + line + " -> ids " + res);
 		}
 	}
+	// corpus: inputs that exposed past / seeded defects (nextShift clamp, shift clamp for R > W), run for every R and type
+	{
+		const std::vector<std::vector<uint64_t>> corpus = {
+			{ 1, 2, 3, 251, 255, 1, 2, 255, 251, 4, 4 },
+			{ 5, 4, 4, 4, 109, 5, 4, 5, 5, 5 },
+			{ 255, 0, 255, 0, 128, 127, 1, 254, 2, 253, 3 },
+		};
+		for (auto codes : corpus) {
+			for (auto& x : codes) x = (W > 8 && rng.chance(1, 2)) ? ((x << (W - 8)) | x) & mask : x & mask;
+			// pad with copies so that the counting pass (count > selectionSortMaxCount) is reached as well
+			std::vector<uint64_t> big = codes;
+			while (big.size() <= selMax + 3 && big.size() < 2600) big.insert(big.end(), codes.begin(), codes.end());
+			for (auto* v : { &codes, &big }) {
+				SwapLog log;
+				std::vector<uint32_t> ids = sortBoth<R, U, asPointer>(c, *v, W, "corpus", log);
+				std::string line = fmt("rs %zu %u", R, W), res;
+				for (uint64_t x : *v) line += fmt(" %llu", (unsigned long long)x);
+				for (size_t i = 0; i < ids.size(); ++i) res += fmt(i ? " %u" : "%u", ids[i]);
+				res += fmt(" ; %llu %llu", (unsigned long long)log.n, (unsigned long long)log.chk);
+				s.op(line); s.res(res);
+				c.stats.count("radix.corpus");
+			}
+		}
+	}
 	// generated long sequences (LCG shared with the model driver)
 	unsigned gens = c.thorough ? 4 : 1;
 	for (unsigned g = 0; g < gens; ++g) {
